@@ -52,7 +52,9 @@ void ledger_forget_all();                 // drop live set (after a crash-free a
 std::vector<const void*> ledger_live_blocks();
 void* hook_malloc(size_t n);              // tagged custom allocator (for cJSON_InitHooks)
 void hook_free(void* p);
-enum HookCfg { HK_DEFAULT = 0, HK_CUSTOM = 1, HK_MALLOC_ONLY = 2, HK_FREE_ONLY = 3, HK_RESET_NULL = 4, HK_NULL_MEMBERS = 5 };
+enum HookCfg { HK_DEFAULT = 0, HK_CUSTOM = 1, HK_MALLOC_ONLY = 2, HK_FREE_ONLY = 3, HK_RESET_NULL = 4, HK_NULL_MEMBERS = 5, HK_CUSTOM_THEN_MALLOC_ONLY = 6, HK_CUSTOM_THEN_FREE_ONLY = 7, HK_NCFG = 8 };
+void* hook_malloc_thin(size_t n);          // counting pass-through to the C library allocator (for one-sided hook configurations)
+void hook_free_thin(void* p);
 void install_hooks(HookCfg c);
 extern HookCfg current_hooks;
 
